@@ -32,6 +32,12 @@ func init() {
 			{"publish.go", "\tif len(p.payload) > 0 {\n\t\ti += p.payload.fill(b, i) // payload", "\tif len(p.payload) > 200 {\n\t\ti += p.payload.fill(b, i) // payload"}}},
 		{Name: "property-length-counts-other-receiver", Rule: "R10.8", Where: "(*Connect).payload#length-prefixes", Edits: []Edit{{"connect.go", "\t\ti += vbint(properties(_LEN, 0)).fill(b, i)", "\t\ti += vbint(p.will.UserProperties.properties(_LEN, 0)).fill(b, i)"}}},
 		{Name: "payload-guards-spelled-differently", Silent: true, Edits: []Edit{{"publish.go", "\tif len(p.payload) > 0 {\n\t\ti += p.payload.fill(b, i) // payload", "\tif len(p.payload) != 0 {\n\t\ti += p.payload.fill(b, i) // payload"}}},
+		{Name: "delegated-helper-returns-buffer-length", Rule: "R10.1", Where: "(*PingReq).WriteTo", Edits: []Edit{
+			{"pingreq.go", "\tb := make([]byte, p.width())\n\tp.fill(b, 0)\n\tn, err := w.Write(b)\n\treturn int64(n), err", "\treturn writeAllX(w, p)"},
+			{"pingreq.go", "func NewPingReq() *PingReq {", "type fillerX interface{ fill([]byte, int) int }\n\nfunc writeAllX(w io.Writer, p fillerX) (int64, error) {\n\tb := make([]byte, p.fill(_LEN, 0))\n\tp.fill(b, 0)\n\t_, err := w.Write(b)\n\treturn int64(len(b)), err\n}\n\nfunc NewPingReq() *PingReq {"}}},
+		{Name: "delegated-helper-with-the-same-shape", Silent: true, Edits: []Edit{
+			{"pingreq.go", "\tb := make([]byte, p.width())\n\tp.fill(b, 0)\n\tn, err := w.Write(b)\n\treturn int64(n), err", "\treturn writeAllX(w, p)"},
+			{"pingreq.go", "func NewPingReq() *PingReq {", "type fillerX interface{ fill([]byte, int) int }\n\nfunc writeAllX(w io.Writer, p fillerX) (int64, error) {\n\tb := make([]byte, p.fill(_LEN, 0))\n\tp.fill(b, 0)\n\tn, err := w.Write(b)\n\treturn int64(n), err\n}\n\nfunc NewPingReq() *PingReq {"}}},
 		{Name: "explicit-error-branch", Silent: true, Edits: []Edit{{"pingreq.go", "\tn, err := w.Write(b)\n\treturn int64(n), err", "\tn, err := w.Write(b)\n\tif err != nil {\n\t\treturn int64(n), err\n\t}\n\treturn int64(n), nil"}}},
 		{Name: "dry-run-hoisted-into-local", Silent: true, Edits: []Edit{{"connack.go", "\tb := make([]byte, p.fill(_LEN, 0))\n\tp.fill(b, 0)\n\tn, err := w.Write(b)", "\tsize := p.fill(_LEN, 0)\n\tb := make([]byte, size)\n\tp.fill(b, 0)\n\tn, err := w.Write(b)"}}},
 	}})
@@ -175,6 +181,10 @@ func checkWriteTo(p *Prog, c *Check, fn *ssa.Function) (*ssa.Function, bool) {
 	if w == nil || len(fn.Params) < 2 {
 		c.Unk("R10.1", cons, pos, "no io.Writer parameter")
 		return nil, false
+	}
+	// delegation: WriteTo hands its writer and its receiver to a shared helper and returns that helper's results
+	if f, handled := checkWriteToDelegated(p, c, fn, w); handled {
+		return f, false
 	}
 	var writes []*ssa.Call
 	otherUse := ""
@@ -412,7 +422,38 @@ func emissionsOf(p *Prog, fn *ssa.Function) (buf *ssa.Parameter, off *ssa.Parame
 // results it contains (per path), or fails.
 type threadSet map[*ssa.Call]bool
 
+// checkThreading: R10.2 (and R10.3/R10.6) for one fill-family function.  The syntactic threading rule is tried
+// first; where it does not recognise the way the offsets are spelled, the path-wise linear accounting of
+// fillacct.go decides (loop-free functions).
 func checkThreading(p *Prog, c *Check, fn *ssa.Function) {
+	sc := NewCheck(c.ID, p)
+	checkThreadingSyntactic(p, sc, fn)
+	failing := false
+	for _, o := range sc.Obls {
+		if o.Rule == "R10.2" && o.Status != Discharged {
+			failing = true
+		}
+	}
+	if failing {
+		if ar := p.fillAccounting(fn, false); ar.applicable && ar.threadOK {
+			for i := range sc.Obls {
+				if sc.Obls[i].Rule == "R10.2" && sc.Obls[i].Status != Discharged {
+					sc.Obls[i].Status = Discharged
+					sc.Obls[i].StatusS = ""
+					sc.Obls[i].Detail = fmt.Sprintf("by path-wise accounting over %d feasible path(s): every emission is made where the bytes emitted so far end, and that end is what is returned", ar.paths)
+				}
+			}
+		}
+	}
+	for _, o := range sc.Obls {
+		c.add(o.Rule, o.Construct, o.Pos, o.Status, o.Detail)
+	}
+	for f := range sc.Funcs {
+		c.Fn(f)
+	}
+}
+
+func checkThreadingSyntactic(p *Prog, c *Check, fn *ssa.Function) {
 	cons := qname(fn)
 	buf, off, ems, _ := emissionsOf(p, fn)
 	if buf == nil {
@@ -1375,6 +1416,15 @@ func lengthPrefixFindings(p *Prog, topLevel map[*ssa.Function]bool) []guardFindi
 			}
 		}
 		walk(fn.Blocks[0], nil, nil, map[string]bool{})
+		if problem != "" || undecided != "" {
+			// the prefix is not spelled as a plain sum of dry runs: decide by linear accounting of widths
+			if ar := p.fillAccounting(fn, topLevel[fn]); ar.applicable && ar.prefixes > 0 && ar.prefixOK {
+				out = append(out, guardFinding{cons: cons, pos: pos, ok: true, how: fmt.Sprintf("%d length prefix(es), %d feasible path(s): by linear accounting each prefix equals the total width of the emissions it covers", ar.prefixes, ar.paths)})
+				continue
+			} else if ar.applicable && ar.prefixes > 0 && problem == "" {
+				problem = ar.prefixWhy
+			}
+		}
 		switch {
 		case npaths > 4096:
 			out = append(out, guardFinding{cons: cons, pos: pos, unk: true, how: "too many paths"})
@@ -1389,4 +1439,170 @@ func lengthPrefixFindings(p *Prog, topLevel map[*ssa.Function]bool) []guardFindi
 		}
 	}
 	return out
+}
+
+// checkWriteToDelegated: `func (p *T) WriteTo(w) (int64, error) { return helper(w, p) }` where helper sizes a
+// buffer with x.M(nil-slice, 0), fills it with x.M(buffer, 0) on the same interface value x, hands exactly that
+// buffer to the writer in exactly one Write on every path and returns int64(n), err of that call.  The encoder
+// used is then T's method M.  handled is false when fn is not of that delegating form (the ordinary rule applies).
+func checkWriteToDelegated(p *Prog, c *Check, fn *ssa.Function, w *ssa.Parameter) (*ssa.Function, bool) {
+	if len(fn.Blocks) != 1 {
+		return nil, false
+	}
+	ret, ok := terminator(fn.Blocks[0]).(*ssa.Return)
+	if !ok || len(ret.Results) != 2 {
+		return nil, false
+	}
+	e0, ok0 := ret.Results[0].(*ssa.Extract)
+	e1, ok1 := ret.Results[1].(*ssa.Extract)
+	if !ok0 || !ok1 || e0.Tuple != e1.Tuple || e0.Index != 0 || e1.Index != 1 {
+		return nil, false
+	}
+	call, ok := e0.Tuple.(*ssa.Call)
+	if !ok {
+		return nil, false
+	}
+	H := call.Call.StaticCallee()
+	if H == nil || H.Pkg == nil || H.Pkg.Pkg != p.Pkg || len(H.Blocks) == 0 || call.Call.IsInvoke() {
+		return nil, false
+	}
+	wi, qi := -1, -1
+	for k, a := range call.Call.Args {
+		if a == ssa.Value(w) {
+			wi = k
+		}
+		if a == ssa.Value(fn.Params[0]) {
+			qi = k
+		}
+		if mi, ok := a.(*ssa.MakeInterface); ok && mi.X == ssa.Value(fn.Params[0]) {
+			qi = k
+		}
+	}
+	if wi < 0 || qi < 0 || wi >= len(H.Params) || qi >= len(H.Params) {
+		return nil, false
+	}
+	cons := qname(fn)
+	pos := p.Pos(fn.Pos())
+	// the writer must have no other use in fn
+	for _, r := range *w.Referrers() {
+		if _, isD := r.(*ssa.DebugRef); !isD && r != ssa.Instruction(call) {
+			c.Bad("R10.1", cons, posOf(p, r), "the writer is used besides being handed to "+qname(H))
+			return nil, true
+		}
+	}
+	hw, hq := H.Params[wi], H.Params[qi]
+	var wr *ssa.Call
+	for _, r := range *hw.Referrers() {
+		switch x := r.(type) {
+		case *ssa.DebugRef:
+		case *ssa.Call:
+			if x.Call.IsInvoke() && x.Call.Value == ssa.Value(hw) && x.Call.Method.Name() == "Write" && wr == nil {
+				wr = x
+				continue
+			}
+			c.Bad("R10.1", cons, posOf(p, r), qname(H)+" uses the writer for more than one Write")
+			return nil, true
+		default:
+			c.Bad("R10.1", cons, posOf(p, r), fmt.Sprintf("%s uses the writer by %T", qname(H), r))
+			return nil, true
+		}
+	}
+	if wr == nil {
+		c.Bad("R10.1", cons, pos, qname(H)+" never writes")
+		return nil, true
+	}
+	for _, b := range H.Blocks {
+		if _, isR := terminator(b).(*ssa.Return); isR && !wr.Block().Dominates(b) {
+			c.Bad("R10.1", cons, posOf(p, terminator(b)), qname(H)+" has an exit that does not pass through the Write")
+			return nil, true
+		}
+	}
+	if loopContaining(H, wr.Block()) != nil {
+		c.Bad("R10.1", cons, posOf(p, wr), "the Write is inside a loop")
+		return nil, true
+	}
+	buf, ok := wr.Call.Args[0].(*ssa.MakeSlice)
+	if !ok || buf.Cap != buf.Len {
+		c.Bad("R10.1", cons, posOf(p, wr), "the argument of Write in "+qname(H)+" is not the freshly made buffer itself")
+		return nil, true
+	}
+	// calls of a method of the filler parameter: x.M(buffer, offset)
+	onFiller := func(v ssa.Value) (*ssa.Call, string, []ssa.Value) {
+		cl, ok := v.(*ssa.Call)
+		if !ok {
+			return nil, "", nil
+		}
+		if cl.Call.IsInvoke() && cl.Call.Value == ssa.Value(hq) {
+			return cl, cl.Call.Method.Name(), cl.Call.Args
+		}
+		if sc := cl.Call.StaticCallee(); sc != nil && sc.Signature.Recv() != nil && len(cl.Call.Args) > 0 && cl.Call.Args[0] == ssa.Value(hq) {
+			return cl, sc.Name(), cl.Call.Args[1:]
+		}
+		return nil, "", nil
+	}
+	dry, M, dargs := onFiller(buf.Len)
+	if dry == nil || len(dargs) < 2 || !p.isNilSliceLoad(dargs[0]) {
+		c.Bad("R10.1", cons, posOf(p, buf), "the buffer in "+qname(H)+" is not sized by a dry run x.fill(nil-slice, 0) of the value handed in: "+describeVal(buf.Len))
+		return nil, true
+	}
+	if k, isC := constInt(dargs[1]); !isC || k != 0 {
+		c.Bad("R10.1", cons, posOf(p, buf), "the dry run does not start at offset 0")
+		return nil, true
+	}
+	var real *ssa.Call
+	for _, r := range *buf.Referrers() {
+		if _, isD := r.(*ssa.DebugRef); isD || r == ssa.Instruction(wr) {
+			continue
+		}
+		rc, m2, rargs := onFiller(valueOf(r))
+		if rc == nil || m2 != M || real != nil || len(rargs) < 2 || rargs[0] != ssa.Value(buf) {
+			c.Bad("R10.1", cons, posOf(p, r), "the frame buffer is used by something other than one "+M+"(buffer, 0) on the same value and the Write: "+r.String())
+			return nil, true
+		}
+		if k, isC := constInt(rargs[1]); !isC || k != 0 {
+			c.Bad("R10.1", cons, posOf(p, r), "the real run does not start at offset 0")
+			return nil, true
+		}
+		real = rc
+	}
+	if real == nil || !real.Block().Dominates(wr.Block()) || (real.Block() == wr.Block() && instrIndex(real) > instrIndex(wr)) {
+		c.Bad("R10.1", cons, posOf(p, buf), "the buffer is not filled before it is written")
+		return nil, true
+	}
+	for _, b := range H.Blocks {
+		hr, isR := terminator(b).(*ssa.Return)
+		if !isR {
+			continue
+		}
+		cv, isConv := hr.Results[0].(*ssa.Convert)
+		var nx *ssa.Extract
+		if isConv {
+			nx, _ = cv.X.(*ssa.Extract)
+		}
+		ex, isEx := hr.Results[1].(*ssa.Extract)
+		if nx == nil || nx.Tuple != ssa.Value(wr) || nx.Index != 0 || !isEx || ex.Tuple != ssa.Value(wr) || ex.Index != 1 {
+			c.Bad("R10.1", cons, posOf(p, hr), qname(H)+" does not return int64(n), err of the Write call")
+			return nil, true
+		}
+	}
+	// the encoder is the receiver type's method M
+	var f *ssa.Function
+	if pt, ok := fn.Params[0].Type().Underlying().(*types.Pointer); ok {
+		if nt := namedOf(pt.Elem()); nt != nil {
+			f = p.Method(nt.Obj().Name(), M)
+		}
+	} else if nt := namedOf(fn.Params[0].Type()); nt != nil {
+		f = p.Method(nt.Obj().Name(), M)
+	}
+	if f == nil {
+		c.Unk("R10.1", cons, pos, "cannot resolve the method "+M+" of the receiver type")
+		return nil, true
+	}
+	c.OK("R10.1", cons, pos, "delegates to "+qname(H)+": buffer = make(dry run of the receiver's "+M+"); filled once by the same method on the same value from offset 0; one Write of that buffer on every path; results forwarded")
+	return f, true
+}
+
+func valueOf(i ssa.Instruction) ssa.Value {
+	v, _ := i.(ssa.Value)
+	return v
 }
